@@ -29,27 +29,73 @@ BENIGN = ["hello", "please", "summarize", "the", "report", "weather", "today", "
           "translate", "this", "sentence", "what", "time", "tea", "mode", "system", "you", "are", "kind"]
 
 
+# DECORATIONS of a signature occurrence (round 6).  MARKS: combining / enclosing marks, a variation selector and
+# invisible format characters - for str.lower and sre ordinary case-less characters that are not \w, \s, \d.
+MARKS = ["\u0300", "\u0301", "\u0303", "\u0308", "\u0323", "\u0327", "\u20dd", "\u3099", "\ufe0f", "\u200b", "\u200d",
+         "\u00ad"]
+# compatibility characters and precomposed letters: (char, is \w, is \s, is \d, code point of its lower())
+FW = lambda c: chr(ord(c) + 0xFEE0)          # noqa: E731  ASCII -> FULLWIDTH form
+COMPAT = ([(FW(c), True, False, True, ord(FW(c))) for c in "0123456789"] +
+          [(FW(c), True, False, False, ord(FW(c.lower()))) for c in "ABCDEFGHIJKLMNOPQRSTUVWXYZ"] +
+          [(FW(c), True, False, False, ord(FW(c))) for c in "abcdefghijklmnopqrstuvwxyz"] +
+          [("\u3000", False, True, False, 0x3000), ("\uff3f", False, False, False, 0xFF3F), ("\uff05", False, False, False, 0xFF05),
+           ("\u24d0", False, False, False, 0x24D0), ("\ufb01", True, False, False, 0xFB01),
+           ("\U0001d41a", True, False, False, 0x1D41A), ("\u00b2", True, False, False, 0xB2), ("\u2170", True, False, False, 0x2170),
+           ("\u212a", True, False, False, ord("k")),            # KELVIN SIGN: a case variant of k
+           ("\u00e9", True, False, False, 0xE9), ("\u00c9", True, False, False, 0xE9), ("\u015b", True, False, False, 0x15B),
+           ("\u1e31", True, False, False, 0x1E31), ("\u1e30", True, False, False, 0x1E31)])
+PRECOMPOSED = {"e": "\u00e9", "E": "\u00c9", "s": "\u015b", "k": "\u1e31", "K": "\u1e30"}     # letter + U+0301, composed
+
+
+def model_cc(o):
+    r"""Regex.v: py_cc, transcribed -> (fold, is \w, is \s, is \d) of the code point o"""
+    fwd, fwu, fwl = 0xFF10 <= o <= 0xFF19, 0xFF21 <= o <= 0xFF3A, 0xFF41 <= o <= 0xFF5A
+    fold = o + 32 if (65 <= o <= 90 or fwu) else {0x212A: 107, 0xC9: 0xE9, 0x1E30: 0x1E31}.get(o, o)
+    word = (48 <= o <= 57 or 65 <= o <= 90 or 97 <= o <= 122 or o == 95 or fwd or fwu or fwl or
+            o in (20013, 1635, 8490, 64257, 119834, 178, 8560, 233, 201, 347, 7729, 7728))
+    space = 9 <= o <= 13 or 28 <= o <= 32 or o in (133, 160, 8195, 12288)
+    digit = 48 <= o <= 57 or fwd or o == 1635
+    return fold, word, space, digit
+
+
+def alphabet():
+    return [chr(o) for o in range(128)] + [e[0] for e in EXTRA] + MARKS + [e[0] for e in COMPAT]
+
+
 def check_alphabet():
-    """The model's classification (Regex.v: py_cc) is Python's on the generator alphabet."""
+    r"""The model's classification (Regex.v: py_cc) is Python's on the generator alphabet: str.lower of every code
+    point, \w \s \d, and - for EVERY pair of alphabet characters - sre's IGNORECASE literal comparison is equality
+    of the folds."""
     bad = []
     for c, w, s, d in EXTRA:
         if c.lower() != c or c.upper() != c or c.casefold() != c:
             bad.append(f"U+{ord(c):04X} is cased")
+        if model_cc(ord(c)) != (ord(c), w, s, d):
+            bad.append(f"U+{ord(c):04X} table")
+    for c in MARKS:
+        if c.lower() != c or c.upper() != c or model_cc(ord(c)) != (ord(c), False, False, False):
+            bad.append(f"mark U+{ord(c):04X}")
+    for c, w, s, d, lo in COMPAT:
+        if model_cc(ord(c)) != (lo, w, s, d):
+            bad.append(f"U+{ord(c):04X} table")
+    alpha = alphabet()
+    if len(set(alpha)) != len(alpha):
+        bad.append("alphabet has duplicates")
+    for c in alpha:
+        fold, w, s, d = model_cc(ord(c))
+        if c.lower() != chr(fold):
+            bad.append(f"lower(U+{ord(c):04X})")
         if bool(re.fullmatch(r"\w", c)) != w or bool(re.fullmatch(r"\s", c)) != s or bool(re.fullmatch(r"\d", c)) != d:
             bad.append(f"U+{ord(c):04X} category")
-        for a in "abcdefghijklmnopqrstuvwxyzABCDEFGHIJKLMNOPQRSTUVWXYZ0123456789_":
-            if re.fullmatch(re.escape(a), c, re.I) or re.fullmatch(re.escape(c), a, re.I):
-                bad.append(f"U+{ord(c):04X} matches {a!r} under IGNORECASE")
-    for o in range(128):
-        c = chr(o)
-        lw = o + 32 if 65 <= o <= 90 else o
-        if c.lower() != chr(lw):
-            bad.append(f"lower({o})")
-        w = c.isalnum() or c == "_"
-        s = (9 <= o <= 13) or (28 <= o <= 32)
-        d = 48 <= o <= 57
-        if bool(re.fullmatch(r"\w", c)) != w or bool(re.fullmatch(r"\s", c)) != s or bool(re.fullmatch(r"\d", c)) != d:
-            bad.append(f"ascii category {o}")
+    folds = {c: model_cc(ord(c))[0] for c in alpha}
+    for p_ in alpha:
+        rx = re.compile(re.escape(p_), re.I)
+        for c in alpha:
+            if (rx.fullmatch(c) is not None) != (folds[p_] == folds[c]):
+                bad.append(f"U+{ord(p_):04X} vs U+{ord(c):04X} under IGNORECASE")
+    s_all = "".join(alpha)
+    if s_all.lower() != "".join(chr(folds[c]) for c in alpha):
+        bad.append("str.lower of the whole alphabet is not the per-character fold")
     return bad
 
 
@@ -279,6 +325,63 @@ def embed(core, rng, glue_l=False, glue_r=False):
     return pre + l + core + r + post
 
 
+# -- decorated occurrences -----------------------------------------------------------------------------------
+# kinds that KEEP the occurrence in the text (the property demands the input stays blocked): a mark right after /
+# right before / on both sides (= surrounding text whose first / last character is not a \w character), and KELVIN
+# SIGN for k (a case variant: lower() is unchanged).  Kinds that make it a DIFFERENT string the signature does not
+# match (nothing is demanded; the gate must report exactly the signatures that do match): a mark inside, fullwidth /
+# ligature / mathematical spellings, a precomposed last letter, IDEOGRAPHIC SPACE for a blank.
+DECOR_KEEP = ["after", "before", "both", "kelvin"]
+DECOR_OTHER = ["inside", "fullwidth", "fullwidth1", "precomposed", "compat1", "ideospace"]
+DECOR_KINDS = DECOR_KEEP + DECOR_OTHER
+
+
+def decorate_occ(core, rng, kind=None, mark=None):
+    """-> a decoration of the occurrence `core` (over the generator alphabet only)"""
+    kind = kind or rng.choice(DECOR_KINDS)
+    m = mark or rng.choice(MARKS)
+    if not core:
+        return m
+    if kind == "after":
+        return core + m
+    if kind == "before":
+        return m + core
+    if kind == "both":
+        return m + core + (mark or rng.choice(MARKS))
+    if kind == "kelvin":
+        if "k" in core.lower():
+            return "".join("\u212a" if c in "kK" and rng.random() < 0.8 else c for c in core).replace("k", "\u212a", 1)
+        return core + m
+    if kind == "inside":
+        if len(core) < 2:
+            return core + m
+        i = rng.randint(1, len(core) - 1)
+        return core[:i] + m + core[i:]
+    if kind == "fullwidth":
+        return "".join(FW(c) if c.isascii() and c.isalnum() else c for c in core)
+    if kind == "fullwidth1":
+        idx = [i for i, c in enumerate(core) if c.isascii() and c.isalnum()]
+        if not idx:
+            return core + m
+        i = rng.choice(idx)
+        return core[:i] + FW(core[i]) + core[i + 1:]
+    if kind == "precomposed":
+        idx = [i for i, c in enumerate(core) if c in PRECOMPOSED]
+        if not idx:
+            return core + m
+        i = idx[-1] if rng.random() < 0.6 else rng.choice(idx)
+        return core[:i] + PRECOMPOSED[core[i]] + core[i + 1:]
+    if kind == "compat1":
+        for a, b in rng.sample([("fi", "\ufb01"), ("a", "\U0001d41a"), ("i", "\u2170"), ("2", "\u00b2"), ("a", "\u24d0"),
+                                ("_", "\uff3f"), ("%", "\uff05")], 7):
+            if a in core:
+                return core.replace(a, b, 1)
+        return core + m
+    if kind == "ideospace":
+        return core.replace(" ", "\u3000", 1) if " " in core else core + m
+    raise ValueError(kind)
+
+
 # custom regexes over the supported constructs (no nested stars)
 RX_ATOMS = [r"\bfoo\b", r"bar\s+baz", r"se?cret", r"a.c", r"<<.*>>", r"(cat|dog)s?", r"\d+%", r"[xyz]9", r"[^a]bc",
             r"pass\w+", r"\bkey\s*=", r"x{2,3}y", r"(ab)+c", r"\S+@\S+", r"tok\Wen", r"\bsudo\b", r"rm\s+-rf",
@@ -398,6 +501,15 @@ class MemBook:
             if op[1] != self.thr:
                 self.thr = op[1]
                 self.epoch += 1
+        elif o == "set":          # a configuration attribute assigned on the live membrane
+            if op[1] == "rate_limit":
+                self.rate = op[2]
+            elif op[1] == "enable_adaptive":
+                self.adaptive = bool(op[2])
+            elif op[1] == "threshold":
+                self.apply(["thr", op[2]])
+            elif op[1] != "silent":
+                raise ValueError(op[1])
 
     def judge(self, st):
         """st: the recorded filter step of this membrane -> None | Violation"""
@@ -448,18 +560,22 @@ class MemBook:
                 self.first_block[x] = self.decisions
                 self.blocked_now.append(x)
         if st["limited"] is not True:
-            self.admitted.append(st["t"] / TPS)
+            self.admitted.append((st["t"] / TPS, self.rate))      # passed the rate check, under the limit then in force
         return None
 
     def rate_verdict(self):
-        if self.rate is None:
-            return None
-        lim = max(0, self.rate)
-        for a in self.admitted:
-            n = sum(1 for u in self.admitted if a <= u < a + WINDOW_S)
-            if n > lim:
-                return Violation("C10/rate-bound", f"{self.tag}{n} requests admitted within [{a}, {a + WINDOW_S}) s with "
-                                                   f"rate_limit={self.rate}")
+        """"at most rate_limit inputs are admitted per window", with rate_limit as it stands when an input is admitted
+        (it may be re-assigned on the live membrane): the window of 60 s ending at an admission made under a numeric
+        limit n holds at most n admissions made under a numeric limit, that one included (a request served while
+        rate_limit is None is not subject to, and not counted against, a limit).  Monotone clocks only."""
+        counted = [(t, r) for (t, r) in self.admitted if r is not None]
+        for k, (t, r) in enumerate(counted):
+            inwin = [(u, q) for (u, q) in counted[:k + 1] if u > t - WINDOW_S]
+            if len(inwin) > max(0, r):
+                return Violation("C10/rate-bound",
+                                 f"{self.tag}{len(inwin)} requests admitted within ({t - WINDOW_S}, {t}] s although rate_limit was "
+                                 f"{r} when the last of them was admitted (rate_limit in force at each of these admissions: "
+                                 f"{[q for _, q in inwin][:12]}{'...' if len(inwin) > 12 else ''})")
         return None
 
 
@@ -523,7 +639,7 @@ class C10(Check):
     HEADER = "From Verif Require Import C10.Regex C10.Model C10.Run."
     RUN = "run_case"
     CASE_TYPE = "case"
-    N_QUICK = 560
+    N_QUICK = 520
     N_THOROUGH = 30000
     RULE = ("membrane histories (45%): a subset of the 19 built-in signatures + 0..3 custom substring/regex signatures, threshold in all 4 "
             "levels, rate_limit in {None,0..4}, enable_adaptive both ways, 3..12 operations from {filter, learn_threat, forget_threat, "
@@ -579,6 +695,22 @@ class C10(Check):
             "stream (+ n/9 cases), free membrane / innate / colony histories and per-signature batches in which half of the custom, "
             "learned, imported and added signatures are host patterns; in Coq such a signature is KHost (tab ...), the table re "
             "itself gives on that one pattern for the contents of the case. "
+            "LIVE RECONFIGURATION (round 6): the public configuration attributes are ASSIGNED ON THE LIVE OBJECT between "
+            "requests - m.rate_limit (raised, raised far beyond the old limit and followed by a counted burst, raised twice, "
+            "lowered, None -> n, n -> None -> m, 0, negative, raised after the window drained, raised and observed over the next "
+            "two windows), m.enable_adaptive (off: learn_threat ignored, what was learnt stays, forget / import still work; on "
+            "again), m.threshold (attribute assignment instead of set_threshold), m.silent (transparent), "
+            "im.severity_threshold - a systematic family of 14 membrane variants + 1 innate on every run, random members (4%), "
+            "and such assignments mixed into the free membrane / innate histories and the rate bursts. "
+            "DECORATED OCCURRENCES (round 6): for built-in signatures of both gates where they stand (5 each in quick, all in "
+            "thorough) and custom / learned / imported / added substring and regex signatures: the bare occurrence inside benign "
+            "text, then the same text with a mark right AFTER the occurrence (4 of the 12 marks U+0300 U+0301 U+0303 U+0308 U+0323 "
+            "U+0327 U+20DD U+3099 U+FE0F U+200B U+200D U+00AD per case, every second one followed by a word character), right "
+            "BEFORE it, on both sides, and with KELVIN SIGN for k (these keep the occurrence / are a case variant: run first); "
+            "then the kinds that make it another string - a mark INSIDE, FULLWIDTH spelling of all / one character, a precomposed "
+            "letter (e s k + acute), ligature fi / mathematical a / roman numeral / superscript / circled a, IDEOGRAPHIC SPACE for "
+            "a blank; the same decorations in 12% of the random contents and 8% of the per-signature batch contents; the "
+            "classification itself (\\w \\s \\d, fold) of every non-ASCII alphabet character is compared inside Coq. "
             "non-trivial = at least one signature matched or a request was rate-limited/replay-blocked/"
             "rejected by a validator; distinct by case content")
     LEVEL_TEXT = ("Coq theorems, for all signature sets (substring, regex over an AST with literals, sets, categories, '.', sequence, "
@@ -603,22 +735,36 @@ class C10(Check):
                   "returns a document nested no deeper than max_depth (the early return of _measure_depth is proved equivalent to the "
                   "real depth) and no longer than max_size, and reject with a message otherwise; the regex matcher is proved "
                   "sound and complete w.r.t. an inductive matching relation (its Star fuel is never exhausted); check() returns unless "
-                  "a validator raises. The shipped patterns are regenerated from the source through CPython's own regex parser on every "
+                  "a validator raises. LIVE RECONFIGURATION (lrun: histories with m.rate_limit = r / m.enable_adaptive = b "
+                  "assignments between requests): every decision made under a numeric limit n and not refused by the rate check "
+                  "finds at most n counted admissions, itself included, in the 60 s ending at it (monotone clock; requests served "
+                  "while rate_limit is None are neither limited nor counted), whatever assignments happened before; the replay "
+                  "memory, the audit trail, constructor / add_signature signatures and learned signatures (until their text is "
+                  "named) survive every live history; a history without assignments is an ordinary one. DECORATED OCCURRENCES: a "
+                  "code point that is not \\w (for Python: every combining mark / format character of the alphabet) right after, "
+                  "right before or on both sides of an occurrence leaves every signature matching and a scan-blocked input "
+                  "blocked (both sides: no condition on the pattern or the rest of the text). The shipped patterns are regenerated from the source through CPython's own regex parser on every "
                   "run (Gen_C10_ok), and model and code are compared on every generated history and per pattern.")
     LEVEL_NOTE = ("Trusts: Coq kernel+VM; translators/regex_to_coq.py and CPython's re._parser; the matching semantics of CPython's sre "
                   "engine for the supported opcodes (compared per pattern on every run, not proved); Unicode case folding and "
                   "categories outside ASCII + 9 listed code points; sha256[:16] injective on each history; monotone clock for the rate "
                   "bound. Axioms: none (Print Assumptions: closed).")
-    TECHNIQUE = ("Coq proofs (regex matcher sound+complete vs. an inductive relation; induction over operation histories with a "
-                 "sliding-window invariant) + source-to-Coq regex translator + vm_compute correspondence against Membrane/InnateImmunity")
+    TECHNIQUE = ("Coq proofs (regex matcher sound+complete vs. an inductive relation; induction over operation histories, incl. "
+                 "live re-assignment of rate_limit / enable_adaptive, with a sliding-window invariant) + source-to-Coq regex translator + vm_compute correspondence against Membrane/InnateImmunity")
     TRUSTED = ["translators/regex_to_coq.py (ast enumeration of the shipped signatures, sre opcode tree -> Coq AST, template match of "
                "matches()/__post_init__) and CPython's re._parser.parse",
                "CPython sre matching semantics under re.IGNORECASE for LITERAL/NOT_LITERAL/ANY/IN(literals, categories, negation)/"
                "BRANCH/SUBPATTERN/MAX_REPEAT/AT_BOUNDARY: modelled, compared with the real compiled patterns on every run, not proved",
-               "Unicode case folding: modelled not verified (str.lower and sre case-insensitivity are ASCII lower + identity elsewhere; "
-               "\\w \\s \\d are Python's on ASCII and on U+4E2D U+0663 U+0085 U+00A0 U+2003 U+20AC U+2014 U+1F600 U+D800 only; the "
-               "harness asserts Python agrees on exactly this alphabet and generates nothing else; the regex theorems hold for any "
-               "classification satisfying cc_ok)",
+               "Unicode: modelled, checked against Python on the alphabet on every run, not verified beyond it: str.lower is ASCII "
+               "lower + FULLWIDTH capitals -> small + U+212A -> k + U+00C9 -> U+00E9 + U+1E30 -> U+1E31 + identity elsewhere; sre's "
+               "IGNORECASE literal comparison is equality of these folds (asserted for EVERY pair of alphabet characters); \\w \\s "
+               "\\d are Python's on ASCII, on U+4E2D U+0663 U+0085 U+00A0 U+2003 U+20AC U+2014 U+1F600 U+D800, on the 12 marks "
+               "(case-less, none of \\w \\s \\d) and on the compatibility / precomposed characters FULLWIDTH 0-9 A-Z a-z, U+3000 "
+               "U+FF3F U+FF05 U+24D0 U+FB01 U+1D41A U+00B2 U+2170 U+212A U+00E9 U+00C9 U+015B U+1E31 U+1E30; the harness asserts "
+               "Python agrees on exactly this alphabet (225 code points) and generates nothing else; the regex theorems hold for "
+               "any classification satisfying cc_ok. NOT in the alphabet: U+017F LONG S, U+0131, U+0130 - sre's IGNORECASE equates "
+               "them with s / i (so the regex signatures match 'ignore previou\u017f') while str.lower does not (the substring "
+               "signatures do not); under the reading 'case change = lower() preserved' that is not a case change",
                "host patterns (custom regexes outside the AST, e.g. with back-references): CPython's re, compiled from the single "
                "pattern with IGNORECASE, is the reference in the monitor AND the oracle of the model (per case: the table of the "
                "submitted contents it finds a match in; never read from the gate under test); in the theorems the matcher is an "
@@ -648,6 +794,16 @@ class C10(Check):
                    "such patterns 'stays blocked when embedded' is false by the meaning of the pattern itself",
                    "ThreatLevel has the four members SAFE..CRITICAL = 0..3 (checked: Gen_C10_ok)",
                    "clear_audit_log is an explicit administrative reset: the append-only claim is about every other operation",
+                   "rate_limit re-assigned on a live membrane: 'at most rate_limit inputs are admitted per window' is read with the "
+                   "limit in force when an input is admitted - the 60 s ending at an admission made under a numeric limit n hold at "
+                   "most n admissions made under a numeric limit, that one included; a request served while rate_limit is None is "
+                   "not subject to, and not counted against, a limit (None = unlimited)",
+                   "decorated occurrences: a signature 'matches' an input as ThreatSignature.matches / TLRPattern.matches define it "
+                   "on the text AS RECEIVED (case-insensitive substring / IGNORECASE search); a combining mark or format character "
+                   "right after / before an occurrence is surrounding text (the occurrence is still there: must stay blocked), "
+                   "U+212A for k is a case change (lower() unchanged: must stay blocked); a mark inside the occurrence, a fullwidth / "
+                   "ligature / precomposed spelling is a different string no signature matches: the property does not ask for it to "
+                   "be blocked, and the gates must report exactly the signatures that match what was received",
                    "innate: a validator that returns (False, None) or (False, '') is not counted by check() (`if not valid and error`); "
                    "the three shipped validators always give a message (asserted on every call)"]
 
@@ -699,6 +855,8 @@ class C10(Check):
             core = perturb(core, rng)
         if rng.random() < 0.5:
             core = flip_case(core, rng)
+        if rng.random() < 0.12:
+            core = decorate_occ(core, rng)
         gl, gr = rng.random() < 0.2, rng.random() < 0.2
         s = embed(core, rng, gl, gr)
         if rng.random() < 0.08:
@@ -726,6 +884,11 @@ class C10(Check):
                 ops.insert(pos, ["m", h.randrange(len(case["members"])), ["peek", h.choice(MEM_PEEKS)]])
             else:
                 ops.insert(pos, ["peek", h.choice(MEM_PEEKS if case["kind"] == "mem" else INN_PEEKS)])
+        if case["kind"] == "mem" and not case["silent"] and h.random() < 0.3 and ops:
+            # console output switched off and on again on the live membrane (stdout is captured): transparent as well
+            a = h.randint(1, len(ops))
+            ops.insert(a, ["set", "silent", True])
+            ops.insert(h.randint(a + 1, len(ops)), ["set", "silent", False])
         return case
 
     @staticmethod
@@ -1228,6 +1391,220 @@ class C10(Check):
             self._host_share = 0.0
         return out
 
+    # -- LIVE RECONFIGURATION: public configuration attributes assigned on a live gate between requests ------------
+    # rate_limit / enable_adaptive / threshold are plain attributes of a Membrane, severity_threshold of an
+    # InnateImmunity; "configurations" are quantified over, and nothing says a configuration is frozen at construction.
+    LIVE_VARIANTS = ["raise", "raise-big", "raise-twice", "lower", "off-on", "on-off", "zero", "negative",
+                     "raise-after-drain", "raise-then-next-window", "adaptive-off", "adaptive-off-forget", "thr-attr", "mix"]
+
+    def _live_mem(self, rng, variant):
+        nb = len(self._shipped()[0])
+        r0 = rng.choice([1, 2, 2, 3, 4])
+        case = {"kind": "mem", "scenario": "live:" + variant, "builtin": list(range(nb)), "custom": [], "threshold": 2,
+                "rate": r0, "adaptive": True, "t0": T0_TICKS + rng.choice([0, 1]), "ops": []}
+        ops = case["ops"]
+        pool = [s_ for s_ in self._shipped()[0] if "pattern" in s_]
+
+        def reqs(n, spread=True):
+            for _ in range(n):
+                ops.append(["filter", self._content(rng, pool) if rng.random() < 0.25 else benign(rng, rng.randint(1, 3))])
+                if spread and rng.random() < 0.25:
+                    ops.append(["tick", rng.choice([0, 1, 1, 2, 10])])
+
+        def burst(n):
+            ops.append(["burst", rng.choice(["req ", "#", ""]), rng.choice(["", " please"]), rng.choice([0, 1, 100]), n])
+
+        def setrate(v):
+            ops.append(["set", "rate_limit", v])
+        if variant == "raise":
+            reqs(r0 + rng.choice([0, 1, 2]))
+            r1 = r0 + rng.choice([1, 2, 3])
+            setrate(r1)
+            reqs(r1 + 3)
+        elif variant == "raise-big":
+            reqs(r0 + 2, spread=False)
+            r1 = rng.choice([8, 16, 50])
+            setrate(r1)
+            burst(r1 + rng.choice([1, 5, 20]))
+            reqs(2)
+        elif variant == "raise-twice":
+            reqs(r0 + 1)
+            setrate(r0 + 2)
+            reqs(3)
+            setrate(r0 + 4)
+            burst(r0 + 6)
+        elif variant == "lower":
+            case["rate"] = r0 = rng.choice([3, 4, 5])
+            reqs(rng.randint(1, r0))
+            setrate(rng.choice([1, 2]))
+            reqs(3)
+            ops.append(["tick", rng.choice([119, 120, 121])])
+            reqs(4)
+        elif variant == "off-on":
+            reqs(r0 + 1)
+            setrate(None)
+            reqs(rng.randint(2, 5))
+            r1 = rng.choice([1, 2, 3, 6])
+            setrate(r1)
+            reqs(r1 + 2)
+        elif variant == "on-off":
+            case["rate"] = None
+            reqs(3)
+            setrate(2)
+            reqs(4)
+            setrate(None)
+            reqs(3)
+            setrate(3)
+            reqs(5)
+        elif variant in ("zero", "negative"):
+            reqs(1)
+            setrate(0 if variant == "zero" else rng.choice([-1, -5]))
+            reqs(2)
+            setrate(r0 + 1)
+            reqs(r0 + 3)
+        elif variant == "raise-after-drain":
+            reqs(r0 + 1, spread=False)
+            ops.append(["tick", rng.choice([120, 121, 240])])
+            r1 = r0 + rng.choice([1, 3])
+            setrate(r1)
+            reqs(r1 + 2)
+        elif variant == "raise-then-next-window":
+            reqs(r0 + 1, spread=False)
+            r1 = r0 + rng.choice([2, 3])
+            setrate(r1)
+            reqs(r1 + 1, spread=False)
+            ops.append(["tick", rng.choice([119, 120, 121])])
+            reqs(r1 + 2, spread=False)
+            ops.append(["tick", 121])
+            burst(r1 + 3)
+        elif variant in ("adaptive-off", "adaptive-off-forget"):
+            case["rate"] = None
+            thr = case["threshold"] = rng.choice([1, 2, 3])
+            pats = rng.sample([p for p in SUBS if p.strip()] + RX_ATOMS, 2)
+            g1 = {"id": 210, "pattern": pats[0], "regex": pats[0] in RX_ATOMS, "level": rng.randint(thr, 3)}
+            g2 = {"id": 211, "pattern": pats[1], "regex": pats[1] in RX_ATOMS, "level": rng.randint(thr, 3)}
+            inst = lambda g: embed(self._instance(g, rng), rng)[:MAX_COQ_LEN]      # noqa: E731
+            ops.append(["learn", g1])
+            ops.append(["set", "enable_adaptive", False])
+            ops.append(["learn", g2])                       # no effect while adaptive immunity is off
+            ops += [["filter", inst(g1)], ["filter", inst(g2)]]
+            if variant == "adaptive-off-forget":
+                ops.append(["forget", g1["pattern"]])       # forget_threat works regardless
+                ops.append(["import", [{**g2, "id": 212}]])  # ... and so does import_antibodies
+                ops += [["filter", inst(g1)], ["filter", inst(g2)]]
+            ops.append(["set", "enable_adaptive", True])
+            ops.append(["learn", {**g2, "id": 213}])
+            ops += [["filter", inst(g2)], ["filter", inst(g1)]]
+        elif variant == "thr-attr":
+            case["rate"] = None
+            g = {"id": 214, "pattern": rng.choice(["tea", "secret", "Zz"]), "regex": False, "level": 1}
+            case["custom"] = [g]
+            x = embed(self._instance(g, rng), rng)
+            ops += [["filter", x], ["set", "threshold", 1], ["filter", flip_case(x, rng) + " "], ["filter", x],
+                    ["set", "threshold", 3], ["filter", "please " + x], ["filter", x]]
+        else:       # mix
+            for _ in range(rng.randint(3, 6)):
+                reqs(rng.randint(1, 4))
+                ops.append(rng.choice([["set", "rate_limit", rng.choice([None, 0, 1, 2, 3, 5, 9])],
+                                       ["set", "enable_adaptive", rng.random() < 0.5],
+                                       ["set", "threshold", rng.choice([1, 2, 3])],
+                                       ["tick", rng.choice([1, 60, 119, 121])],
+                                       ["learn", {"id": 215, "pattern": "zq-marker", "regex": False, "level": 3}]]))
+            reqs(3)
+        return case
+
+    def _live_inn(self, rng):
+        """severity_threshold re-assigned on a live InnateImmunity between checks"""
+        shipped = self._shipped()[1]
+        nb = len(shipped)
+        case = {"kind": "inn", "scenario": "live:severity", "builtin": list(range(nb)), "custom": [], "validators": [],
+                "threshold": rng.choice([3, 4, 5]), "decay": 15, "t0": 0, "ops": []}
+        pool = [s_ for s_ in shipped if "pattern" in s_]
+        ops = case["ops"]
+        for _ in range(rng.randint(2, 4)):
+            x = embed(self._instance(rng.choice(pool), rng), rng)[:MAX_COQ_LEN]
+            ops.append(["check", x])
+            ops.append(["set", "severity_threshold", rng.choice([0, 1, 2, 3, 4, 5, 6])])
+            ops.append(["check", rng.choice([x, flip_case(x, rng), "hello " + x])[:MAX_COQ_LEN]])
+            if rng.random() < 0.3:
+                ops.append(["tick", rng.choice([1, 901])])
+        return case
+
+    # -- DECORATED occurrences of a signature: marks after / before / inside, compatibility spellings ---------------
+    DECOR_MEM = [("ignore previous", False), ("jailbreak", False), (r"rm\s+-rf", True), (r"\bsudo\b", True), ("Drop Table", False),
+                 (r"pass\w+", True), ("secret key", False), (r"(cat|dog)s?", True)]
+
+    def _decor_case(self, rng, gate, g, how, part="keep"):
+        """g enters through `how`; then the bare occurrence in benign text, then decorations of the SAME occurrence in
+        the same text.  part "keep": the kinds that leave the occurrence in the text (a mark right after it - four
+        different marks, once with a word character following the mark -, right before it, on both sides, KELVIN SIGN
+        for k): the property demands the input stays blocked.  part "other": the kinds that make it another string
+        (mark inside, compatibility spellings, precomposed letter): the gate must report exactly what matches."""
+        innate = gate == "inn"
+        shipped = self._shipped()[1 if innate else 0]
+        nb = len(shipped)
+        op_check = "check" if innate else "filter"
+        if innate:
+            case = {"kind": "inn", "scenario": f"decor-{part}:{how}", "builtin": list(range(nb)), "custom": [],
+                    "validators": rng.choice([[], [["len", 0, 100000]]]), "threshold": 3, "decay": 15, "t0": 0, "ops": []}
+        else:
+            case = {"kind": "mem", "scenario": f"decor-{part}:{how}", "builtin": list(range(nb)), "custom": [], "threshold": 2,
+                    "rate": None, "adaptive": True, "t0": T0_TICKS, "ops": []}
+        ops = case["ops"]
+        if how == "ctor":
+            case["custom"].append(g)
+        elif how != "shipped":
+            ops.append({"addsig": ["addsig", g], "learn": ["learn", g], "import": ["import", [g]], "addpat": ["addpat", g]}[how])
+        core = self._instance(g, rng)
+        if rng.random() < 0.4:
+            core = flip_case(core, rng)
+        pre = rng.choice(["", "Dear assistant, ", "ok. ", "please "])
+        post = rng.choice(["", " - thanks and best regards.", " now", ", ok?"])
+        ops.append([op_check, (pre + core + post)[:MAX_COQ_LEN]])
+        marks = rng.sample(MARKS, len(MARKS))
+        if part == "keep":
+            plan = [("after", m) for m in marks[:4]] + [("before", marks[4]), ("both", marks[5]), ("kelvin", marks[6])]
+        else:
+            plan = [(k, marks[j]) for j, k in enumerate(rng.sample(DECOR_OTHER, 4))]
+        for j, (kind, m) in enumerate(plan):
+            x = decorate_occ(core, rng, kind, mark=m)
+            if kind in ("after", "both") and j % 2 == 1:
+                x += rng.choice(WORDCH)          # a word character right after the mark
+            ops.append([op_check, (pre + x + post)[:MAX_COQ_LEN]])
+        return case
+
+    def _decor_family(self, rng, full):
+        """-> (keep cases, other cases)"""
+        keep, other = [], []
+        mem, inn = self._shipped()
+        # built-in signatures of both gates, decorated where they stand
+        for gate, sigs in (("inn", inn), ("mem", mem)):
+            idx = [i for i, s_ in enumerate(sigs) if "pattern" in s_]
+            for i in (idx if full else rng.sample(idx, 5)):
+                g = {"id": i, "pattern": sigs[i]["pattern"], "regex": sigs[i]["is_regex"], "level": sigs[i]["level"]}
+                keep.append(self._decor_case(rng, gate, g, "shipped", "keep"))
+                other.append(self._decor_case(rng, gate, g, "shipped", "other"))
+        # custom / learned / imported / added signatures
+        for j, (pat, rx) in enumerate(self.DECOR_MEM if full else rng.sample(self.DECOR_MEM, 4)):
+            gi = {"id": 220, "pattern": pat, "regex": rx, "level": rng.choice([3, 4, 5])}
+            gm = {"id": 221, "pattern": pat, "regex": rx, "level": rng.choice([2, 3])}
+            hi, hm = ["ctor", "addpat"][j % 2], ["ctor", "addsig", "learn", "import"][j % 4]
+            keep += [self._decor_case(rng, "inn", gi, hi, "keep"), self._decor_case(rng, "mem", gm, hm, "keep")]
+            other += [self._decor_case(rng, "inn", gi, hi, "other"), self._decor_case(rng, "mem", gm, hm, "other")]
+        return keep, other
+
+    def _alphabet_cases(self):
+        """the classification itself, compared inside Coq: \\w \\s \\d and the fold on every non-ASCII character of the
+        alphabet (and a sample of ASCII)"""
+        chars = [e[0] for e in EXTRA] + MARKS + [e[0] for e in COMPAT] + list("aZ_5 \n-k")
+        out = [{"kind": "sig", "sig": {"id": 100, "pattern": p, "regex": True, "level": 0}, "contents": chars}
+               for p in (r"\w", r"\s", r"\d", r"\bx?\b", "k", "[e\u00e9]")]
+        cased = [FW("J"), FW("Q"), "\u212a", "\u00c9", "\u1e30", "\u00e9", "\u1e31", FW("j"), "k"]
+        for c in cased:
+            out.append({"kind": "sig", "sig": {"id": 100, "pattern": "a" + c, "regex": False, "level": 0},
+                        "contents": ["a" + c, "A" + c.lower(), "xa" + c.upper()[:1] + "y", "a", c, "a" + c + "\u0301"]})
+        return out
+
     def exhaustive_cases(self):
         """the systematic admit/tighten/replay family: every rule-changing operation x substring/regex signatures"""
         import random as _random
@@ -1254,6 +1631,16 @@ class C10(Check):
                     out.append(self._keyclash_sys(rng, how, pat, rx, mode))
             for md in (0, 1, 2, 3, 5, 10):
                 out.append(self._json_family(rng, md))
+        # round 6: decorated occurrences (FIRST: so that a gate that loses them is reported on such an input), live
+        # reconfiguration, the alphabet itself
+        drng = _random.Random(f"C10:decor-live:{self.seed}")
+        front, later = self._decor_family(drng, full=self.tier != "quick")
+        for _ in range(reps):
+            for variant in self.LIVE_VARIANTS:
+                front.append(self._live_mem(drng, variant))
+            front.append(self._live_inn(drng))
+        front += later + self._alphabet_cases()
+        out = front + out
         # host patterns (regexes outside the AST) entering through every door of both gates, among the built-in signatures
         hrng = _random.Random(f"C10:host-family:{self.seed}")
         for _ in range(reps):
@@ -1324,6 +1711,8 @@ class C10(Check):
             for _ in range(rng.randint(5, 12)):
                 if rng.random() < 0.35:
                     ops.append(["tick", rng.choice([0, 1, 59, 60, 61, 118, 119, 120, 121, 122])])
+                if rng.random() < 0.12:     # the limit is re-assigned on the live membrane
+                    ops.append(["set", "rate_limit", rng.choice([None, 0, 1, 2, 3, 4, 6, 9])])
                 ops.append(["filter", self._content(rng, pool) if rng.random() < 0.5 else benign(rng, 2)])
         else:                      # free mix
             for _ in range(rng.randint(3, 12)):
@@ -1357,6 +1746,10 @@ class C10(Check):
                     ops.append(relax())
                 elif r < 0.90:
                     ops.append(["thr", rng.choice([0, 1, 2, 3])])
+                elif r < 0.94:              # a configuration attribute assigned on the live membrane
+                    ops.append(rng.choice([["set", "rate_limit", rng.choice([None, 0, 1, 2, 3, 5])],
+                                           ["set", "enable_adaptive", rng.random() < 0.5],
+                                           ["set", "threshold", rng.choice([0, 1, 2, 3])]]))
                 else:
                     ops.append(tick())
         return case
@@ -1420,6 +1813,8 @@ class C10(Check):
             elif r < 0.86:
                 ops.append(rng.choice([["reset"], ["sib", ["reset"]], ["sib", ["check", self._content(rng, pool)]],
                                        ["sib", ["addval", ["len", 0, 0]]]]))
+            elif r < 0.90:
+                ops.append(["set", "severity_threshold", rng.choice([0, 1, 2, 3, 3, 4, 5, 6])])
             else:
                 ops.append(["tick", rng.choice([0, 1, 59, 60, 61, 899, 900, 901, 3600])])
         return case
@@ -1437,9 +1832,11 @@ class C10(Check):
                 x = perturb(core, rng)
             elif k < 0.8:
                 x = embed(flip_case(core, rng, 0.3), rng, rng.random() < 0.4, rng.random() < 0.4)
-            elif k < 0.9:
+            elif k < 0.87:
                 i = rng.randrange(len(core) + 1)
                 x = core[:i] + rng.choice(CTRL + [e[0] for e in EXTRA]) + core[i:]
+            elif k < 0.95:
+                x = embed(decorate_occ(flip_case(core, rng, 0.2), rng), rng, rng.random() < 0.3, rng.random() < 0.3)
             else:
                 x = benign(rng)
             out.append(x[:MAX_COQ_LEN])
@@ -1467,9 +1864,20 @@ class C10(Check):
                     out.append(c)
             elif r < 0.15:
                 out.append(self._gen_flood(rng, k))
-            elif r < 0.17:
-                out.append(self._json_family(rng, rng.choice([0, 1, 2, 3, 4, 5, 10])))
+            elif r < 0.19:
+                out.append(self._live_mem(rng, self.LIVE_VARIANTS[k % len(self.LIVE_VARIANTS)]) if rng.random() < 0.85
+                           else self._live_inn(rng))
+            elif r < 0.21:
+                gate = "inn" if rng.random() < 0.5 else "mem"
+                g = self._sigdesc(rng, 222, innate=gate == "inn")
+                if g["pattern"].strip():
+                    g["level"] = 3
+                    out.append(self._decor_case(rng, gate, g, rng.choice(["ctor", "addpat"] if gate == "inn" else
+                                                                        ["ctor", "addsig", "learn", "import"]),
+                                                rng.choice(["keep", "other"])))
             elif r < 0.23:
+                out.append(self._json_family(rng, rng.choice([0, 1, 2, 3, 4, 5, 10])))
+            elif r < 0.29:
                 if rng.random() < 0.35:
                     rx = rng.random() < 0.5
                     pat = rng.choice(RX_ATOMS) if rx else rng.choice([p for p in SUBS if p.strip()])
@@ -1494,6 +1902,14 @@ class C10(Check):
         # way of relaxing), last so that it shares its Coq shard with few other cases; larger ones run on the
         # implementation under the monitor only (extra_checks)
         out += self._gen_host(_random_mod.Random(f"C10:host:{self.seed}:{n}"), max(8, n // 9))
+        # the 10k campaign costs as much Coq time as ~600 ordinary cases: fill the preceding shard (the driver evaluates
+        # shards of 300 consecutive cases in parallel) with further random histories so that the campaign's own shard
+        # holds only a handful of other cases
+        SHARD = 300
+        before = len(self.corpus_cases()) + len(self.exhaustive_cases()) + len(out)
+        if before % SHARD > 12:
+            for _ in range(SHARD - before % SHARD + 6):
+                out.append(self._gen_mem(rng) if rng.random() < 0.5 else self._gen_inn(rng))
         relaxes = [self.FLOOD_RELAX[self.seed % 3]] if self.tier == "quick" else self.FLOOD_RELAX[:3]
         for relax in relaxes:
             out.append(self._flood_mem(rng, self.FLOOD_IN_COQ, relax, lean=True, pat=("zq-marker", False)))
@@ -1724,11 +2140,20 @@ class C10(Check):
                         clock.ticks += op[1]
                     elif kind == "clear":
                         m.clear_audit_log()
+                    elif kind == "set":      # a public configuration attribute assigned on the LIVE membrane
+                        if op[1] not in ("rate_limit", "enable_adaptive", "threshold", "silent"):
+                            raise ValueError(op[1])
+                        if op[1] == "silent" and not loud:
+                            raise ValueError("silent toggled in a history whose stdout is not captured")
+                        setattr(m, op[1], M.ThreatLevel(op[2]) if op[1] == "threshold" else op[2])
                     else:
                         raise ValueError(kind)
                     after = m.get_audit_log()
                     st["audit_ok"] = (after == [] if kind == "clear"
                                       else len(after) == len(before) and all(a is b for a, b in zip(before, after)))
+                    if kind == "set" and op[1] == "silent":     # transparent: no observation of its own
+                        steps.append(st)
+                        continue
                     obs.append([-1, len(after), len(m._learned_patterns), m.threshold.value])
                     obs.append(self._exported(m))
                 steps.append(st)
@@ -1979,6 +2404,10 @@ class C10(Check):
                         im.reset_inflammation()
                     elif kind == "tick":
                         VDatetime.secs += op[1]
+                    elif kind == "set":      # im.severity_threshold assigned on the live object
+                        if op[1] != "severity_threshold":
+                            raise ValueError(op[1])
+                        im.severity_threshold = op[2]
                     else:
                         raise ValueError(kind)
                     obs.append([-1, len(im.patterns), int(im.inflammation_state.level), im.inflammation_state.trigger_count])
@@ -2079,6 +2508,17 @@ class C10(Check):
                     ops.append(f"COp (OTick {cz(op[1])})")
                 elif o == "clear":
                     ops.append("COp OClearAudit")
+                elif o == "set":
+                    if op[1] == "rate_limit":
+                        if not (op[2] is None or (isinstance(op[2], int) and not isinstance(op[2], bool))):
+                            raise ValueError("rate_limit is int | None")
+                        ops.append(f"CSetRate {copt(op[2])}")
+                    elif op[1] == "enable_adaptive":
+                        ops.append(f"CSetAdaptive {cbool(op[2])}")
+                    elif op[1] == "threshold":
+                        ops.append(f"COp (OSetThreshold {cz(op[2])})")
+                    elif op[1] != "silent":       # console output: not shown to the model
+                        raise ValueError(op[1])
                 elif o != "peek":         # read-only accessor: not shown to the model
                     raise ValueError(o)
             return ("(CMem (mkMCase %s %s %s %s %s %s %s))" % (
@@ -2117,6 +2557,8 @@ class C10(Check):
                 ops.append("RI IReset []")
             elif o == "tick":
                 ops.append(f"RI (ITick {cz(op[1])}) []")
+            elif o == "set":
+                ops.append(f"RI (ISetThreshold {cz(op[2])}) []")
             elif o != "peek":             # read-only accessor: not shown to the model
                 raise ValueError(o)
         return ("(CInn (mkICase %s %s %s %s %s %s %s))" % (
@@ -2240,6 +2682,9 @@ class C10(Check):
                 epoch += 1
             if o == "addval":
                 vdescs.append(op[1])
+            if o == "set":              # severity_threshold assigned on the live object
+                thr = op[2]
+                epoch += 1
             if o != "check":
                 continue
             x = st["content"]
@@ -2255,16 +2700,18 @@ class C10(Check):
                     continue
                 return Violation("C10/raises", f"InnateImmunity.check raised {st['raised']} on {x[:60]!r} (len {len(x)})")
             hits = [(i, sev) for (i, p, rx, sev) in pats if spec_matches(p, rx, x)]
+            texts = {i: ("regex " if rx else "substring ") + repr(p) for (i, p, rx, _s) in pats}
+            if st["allowed"]:           # the allow rule first (as for the membrane), then the reported match list
+                bad = [i for (i, sev) in hits if sev >= thr]
+                if bad:
+                    return Violation("C10/allowed-despite-signature",
+                                     f"check allowed {x!r} although pattern(s) {[(i, texts.get(i)) for i in bad]} at/above "
+                                     f"severity {thr} match (reported matched patterns: {st['ids']})")
             if st["ids"] != sorted(i for i, _ in hits):
-                texts = {i: ("regex " if rx else "substring ") + repr(p) for (i, p, rx, _s) in pats}
                 return Violation("C10/matched-set", f"matched patterns {st['ids']} != matching patterns "
                                                     f"{sorted(i for i, _ in hits)} for {x!r} (active patterns that differ: "
                                                     f"{[(i, texts.get(i)) for i in sorted(set(st['ids']) ^ {i for i, _ in hits})]})")
             if st["allowed"]:
-                bad = [i for (i, sev) in hits if sev >= thr]
-                if bad:
-                    return Violation("C10/allowed-despite-signature",
-                                     f"check allowed {x!r} although pattern(s) {bad} at/above severity {thr} match")
                 if any(v["shipped"] and not v["valid"] for v in vs):
                     return Violation("C10/allowed-despite-validator", f"check allowed {x!r} although a shipped validator rejects it")
                 for vdesc in vdescs:        # the shipped validators as documented, judged on the input itself
@@ -2362,6 +2809,19 @@ class C10(Check):
             for st in trace.get("steps", []):
                 if st["op"] == "check" and "allowed" in st:
                     ks.append("json-depth:" + ("allowed" if st["allowed"] else "blocked"))
+        elif str(case.get("scenario", "")).startswith("decor-"):
+            part = case["scenario"].split(":")[0]
+            fs = [st for st in trace.get("steps", []) if st["op"] in ("filter", "check") and "allowed" in st]
+            for j, st in enumerate(fs):
+                ks.append(f"{part}:{'bare' if j == 0 else 'decorated'}-{'allowed' if st['allowed'] else 'blocked'}"
+                          f"{'' if st.get('ids') else '-nomatch'}")
+        elif str(case.get("scenario", "")).startswith("live:"):
+            ks.append(case["scenario"])
+            for st in trace.get("steps", []):
+                for it in (st.get("items") or [st]):
+                    if it.get("limited"):
+                        ks.append(case["scenario"] + ":rate-limited")
+                        break
         elif case.get("scenario") and not case["scenario"].startswith(("keyclash:", "host:")):
             key = "filter" if k == "mem" else "check"
             fs = [st for st in trace.get("steps", []) if st["op"] == key and st.get("content") == case["ops"][0][1]
